@@ -92,7 +92,7 @@ def design(ctx, names):
 def gen_cases(ctx, names, parts=None, nrandom=None):
     """(b) TLC enumerates the plan families and random nested plans."""
     if parts is None:
-        parts = ["matrix012", "values2", "values1", "refs", "computed", "eqcont", "scratch", "nestlit", "arith", "cmp", "retval", "var3", "bigint", "implied", "route", "cells", "modsign", "hist", "mutate", "forms"]
+        parts = ["matrix012", "values2", "values1", "refs", "computed", "eqcont", "scratch", "nestlit", "arith", "cmp", "retval", "var3", "bigint", "implied", "route", "cells", "modsign", "sumkinds", "copyres", "hist", "mutate", "forms"]
         if not ctx.quick:
             parts += ["matrix012b", "matrix3", "matrix4", "values3"]
     if nrandom is None:
@@ -383,7 +383,9 @@ def main(ctx):
     ctx.cov["functions_in_package"] = len(names)
     ctx.cov["rule"] = ("plans = TLC-enumerated families over every function name of asm.FnDocs(): (function x arity 0..2 x 10 argument "
                        "kinds) [thorough: arity 3 over 5 kinds, arity 4 over 3 kinds], value-level matrices for the functions with "
-                       "specified semantics, mutator x path x value x root, cond/sort/reverse/each families, two-step plans, and random "
+                       "specified semantics, (arithmetic function x argument-kind sequence of length 3-4 over int, 0, float, string, bool), "
+                       "stored copies (reverse / sort of 0-3 item arrays under $.src, then modified under $.asm), "
+                       "mutator x path x value x root, cond/sort/reverse/each families, two-step plans, and random "
                        "nested plans (tlc -simulate, depth <= 4); each plan bare and as [set $.asm plan]. Each plan is executed 5x on "
                        "fresh roots (3x one Plan object, 2x fresh objects) + rebuilt from String() and Simplify(); evaluations = 9 "
                        "real executions per case. distinct_nontrivial = distinct (function, argument-kind tuple) cells for which the "
